@@ -34,7 +34,10 @@ def main():
         try:
             for c in [pid] + EXTRA.get(d, []):
                 rc, out = sh("./check %s --tier quick" % c, cwd=VERIF)
-                keys = re.findall(r"violated (\S+) at", out)
+                keys = []
+                rp = os.path.join(VERIF, "evidence", "replay", "%s.json" % c)
+                if rc == 1 and os.path.exists(rp):
+                    keys = [v["key"] for v in json.load(open(rp))["violations"]]
                 det[c] = {"exit": rc, "violations": keys[:6]}
         finally:
             sh("git checkout -- .", cwd=REPO)
